@@ -3,7 +3,8 @@
    prod, sumbool, sumor -> OCaml types).  No Extract Constant of our own;
    Z / positive / nat stay Coq inductives. *)
 From Coq Require Extraction ExtrOcamlBasic.
-From Tbfmm Require Import Base.Prelude Base.Search Index.OverflowDefs Index.HilbertDefs Index.MortonDefs Tree.GroupDefs Index.ListsDefs Tree.BuildDefs Tree.ExportDefs Exec.ExecDefs Exec.CounterDefs Exec.ExecTsmDefs Exec.ExecPeriodicDefs Exec.ImageDefs Mem.LayoutDefs Num.P2PDefs Num.P2PSF Float.LocateDefs.
+From Tbfmm Require Import Base.Prelude Base.Search Index.OverflowDefs Index.HilbertDefs Index.MortonDefs Tree.GroupDefs Index.ListsDefs Tree.BuildDefs Tree.ExportDefs Exec.ExecDefs Exec.CounterDefs Exec.ExecTsmDefs Exec.ExecPeriodicDefs Exec.ImageDefs Mem.LayoutDefs Num.P2PDefs Num.P2PSF Num.UnifDefs Float.LocateDefs.
+From Coq Require Import QArith.
 Extraction Blacklist List String Int.
 Set Extraction KeepSingleton.
 Extraction "model.ml"
@@ -11,6 +12,7 @@ Extraction "model.ml"
   h_unbox h_box h_parent h_child_code h_ilist_cell h_nlist_cell h2m m2h
   box_safe box_guard box unbox box_opt unbox_opt parent child_code child upper_bound
   enc7 enc3 dec7 dec3 image_shift need_shift
+  unif_root unif_L unif_dL Qred
   ilist_cell nlist_cell ilist_block nlist_block self_block
   mk_cgroup elem_from_index elem_from_parent lower_bound_opt
   build find_cell find_leaf cg_find cg_find_parent pg_find
